@@ -60,6 +60,25 @@ var catalogue = []def{
 	{"+proj=utm +zone=33 +south +ellps=WGS84 +datum=WGS84 +units=m +no_defs", "", false},
 	{"GOOGLE", gmercText, false},
 	{"EPSG:4326", wgs84Text, true},
+	// parameter combinations on the edge of each family: defaults omitted,
+	// single standard parallel, and degenerate combinations that the
+	// projection constructor rejects (the error — or whatever it returns —
+	// must be the same on every call)
+	{"+proj=lcc +lat_1=33 +lat_0=40 +lon_0=-97 +datum=WGS84 +units=m +no_defs", "", false},
+	{"+proj=lcc +lat_1=0 +lat_0=0 +lon_0=10 +datum=WGS84 +units=m +no_defs", "", false},
+	{"+proj=lcc +lat_1=30 +lat_2=-30 +lat_0=0 +lon_0=0 +datum=WGS84 +units=m +no_defs", "", false},
+	{"+proj=aea +lat_1=30 +lat_2=-30 +lat_0=0 +lon_0=0 +datum=WGS84 +units=m +no_defs", "", false},
+	{"+proj=aea +lat_1=40 +lat_0=0 +lon_0=20 +ellps=GRS80 +units=m +no_defs", "", false},
+	{"+proj=eqdc +lat_1=20 +lat_2=-20 +lat_0=0 +lon_0=0 +datum=WGS84 +units=m +no_defs", "", false},
+	{"+proj=eqdc +lat_1=55 +lat_0=50 +lon_0=10 +ellps=intl +towgs84=-87,-98,-121 +units=m +no_defs", "", false},
+	{"+proj=merc +lat_ts=45 +lon_0=10 +datum=WGS84 +units=km +no_defs", "", false},
+	{"+proj=merc +datum=WGS84 +no_defs", "", false},
+	{"+proj=tmerc +lat_0=0 +lon_0=9 +k=1 +x_0=3500000 +y_0=0 +datum=potsdam +units=m +no_defs", "", false},
+	{"+proj=tmerc +datum=WGS84 +no_defs", "", false},
+	{"+proj=utm +zone=60 +datum=WGS84 +no_defs", "", false},
+	{"+proj=krovak +ellps=bessel +towgs84=570.8,85.7,462.8,4.998,1.587,5.261,3.56 +units=m +no_defs", "", false},
+	{"+proj=longlat +a=6371000 +b=6371000 +no_defs", "", true},
+	{"+proj=longlat +ellps=bessel +towgs84=582,105,414,1.04,0.35,-3.08,8.3 +pm=ferro +axis=wnu +no_defs", "", true},
 }
 
 func (d def) freshText() string {
@@ -252,7 +271,7 @@ func (e *engine) Info() core.Info {
 	return core.Info{
 		Prop:  "C10",
 		Level: "exploration",
-		Rule:  "a case is one seeded history: a pool of 2-6 spatial references parsed from a 21-entry catalogue (registry names = shared pointers, 3- and 7-parameter datums needing the WGS84 hop, same-datum pairs, non-enu axis orders, +pm, +units, +nadgrids), 2-4 simulated clients that build transformers over the shared pool and whose calls the tape interleaves (<=60 operations, positions inside and outside the usable region), plus Geom.Transform on all eight geometry types (collections nested up to 40 levels, closed rings, signed zeros, huge values) with a pure sign-of-zero-sensitive stub transformer, optionally re-entrant (it runs another Geom.Transform from inside), wrapped by a fault injector that fails on a tape-chosen vertex; non-trivial = some transformer was called at least twice AND another transformer sharing one of its spatial references was called in between, or a fault fired on a non-first vertex of a multi-part geometry; distinct = distinct hash of the operation/result log",
+		Rule:  "a case is one seeded history: a pool of 2-6 spatial references parsed from a 36-entry catalogue (registry names = shared pointers, 3- and 7-parameter datums needing the WGS84 hop, same-datum pairs, non-enu axis orders, +pm, +units, +nadgrids), 2-4 simulated clients that build transformers over the shared pool and whose calls the tape interleaves (<=60 operations, positions inside and outside the usable region), plus Geom.Transform on all eight geometry types (collections nested up to 40 levels, closed rings, signed zeros, huge values) with a pure sign-of-zero-sensitive stub transformer, optionally re-entrant (it runs another Geom.Transform from inside), wrapped by a fault injector that fails on a tape-chosen vertex; non-trivial = some transformer was called at least twice AND another transformer sharing one of its spatial references was called in between, or a fault fired on a non-first vertex of a multi-part geometry; distinct = distinct hash of the operation/result log",
 		Real:  []string{"proj.Parse, (*SR).NewTransform and its closures, Transformers(), datumTransform, adjust_axis, all projection kernels reached by the catalogue", "Geom.Transform for Point, MultiPoint, LineString, MultiLineString, Polygon, MultiPolygon, GeometryCollection, *Bounds"},
 		Stubs: []string{"for the Geom.Transform clauses: a pure affine stub transformer wrapped by the fault injector (the proj.Transformer function type is the seam)", "fresh-world oracle: same real code, newly parsed references, single call"},
 		FaultKinds: []string{
